@@ -60,7 +60,7 @@ LEVEL_TEXT = ("Every generated message sequence is parsed by the real code once 
 LEVEL_NOTE = "trusted: vf.gen_http encoder and its ground-truth fields (cross-checked by its own chunk decoder), dict/list equality"
 NSHARDS = {"quick": 16, "thorough": 16}
 TIMEOUT_S = {"quick": 300, "thorough": 3600}
-BUDGET_S = {"quick": 25, "thorough": 450}
+BUDGET_S = {"quick": 40, "thorough": 450}
 REQUIRE = {"feeds": 20000, "two_split_partitions": 10000, "one_byte_partitions": 100, "random_partitions": 500,
            "crlf_cut_partitions": 100, "messages_ended_whole": 300, "truth_checks": 300,
            "framing:length": 40, "framing:chunked": 40, "framing:close": 10, "framing:none": 10,
@@ -68,7 +68,8 @@ REQUIRE = {"feeds": 20000, "two_split_partitions": 10000, "one_byte_partitions":
            "responses_with_interim": 72, "interim_with_headers": 30, "two_splits_inside_interim_block": 1000,
            "interim_then:length": 10, "interim_then:chunked": 10, "interim_then:close": 10,
            "server_sequences": 32, "server_feeds": 5000, "server_two_splits_of_later_requests": 3000,
-           "server_sequential_feeds": 2000, "server_requests_recovered_whole": 64, "big_messages_over_64KiB": 4}
+           "server_sequential_feeds": 2000, "server_requests_recovered_whole": 64, "big_messages_over_64KiB": 4,
+           "huge_messages_over_256KiB": 6, "huge_whole_feeds_matching_truth": 6, "huge_server_role_drives": 8}
 EXHAUSTIVE = {"quick": "for every generated sequence: all partitions of its bytes into two reads",
               "thorough": "for every generated sequence: all partitions of its bytes into two reads"}
 
@@ -146,9 +147,50 @@ def big_case(k):
             "rand": [G.random_cuts(r, n, c) for c in (2, 5)] + [list(range(70000, n, 70000))]}
 
 
+HUGE = [("response", "length", "crlf", 300), ("response", "chunked", "crlf", 600), ("response", "close", "lf", 300),
+        ("request", "length", "crlf", 600), ("request", "chunked", "lf", 300), ("response", "length", "lf", 600)]
+
+
+def huge_case(k):
+    """client-role and server-role messages of ~300 / ~600 KiB (more than 4 x MAX_LINE_SIZE buffered behind the head).
+    The bulk of the body has no CR/LF at all (hio's line search is quadratic in the buffered size); the hostile part is a
+    short prefix and suffix."""
+    kind, framing, eol, kib = HUGE[k]
+    r = random.Random(f"C13:huge:{k}")
+    size = kib * 1024 + r.randint(1, 999)
+    bulk = bytes(range(0x20, 0x7f)) + b"\x00\xff\x80\t"
+    body = G.gen_body(r, 1500) + (bulk * (size // len(bulk) + 1))[:size] + b"\r\n0\r\n\r\nHTTP/1.1 200 OK\r\n\r\n" + G.gen_body(r, 200)
+    d = (G.gen_response if kind == "response" else G.gen_request)(r, framing=framing, eol=eol, version="1.1", maxbody=8,
+                                                                  exts=True, trailers=True, persist=(framing != "close"))
+    d["body"] = G.b2s(body)
+    if framing == "length":
+        for h in d["headers"]:
+            if h[0].lower() == "content-length":
+                h[1] = str(len(body))
+    elif framing == "chunked":
+        exts = [["big", "1"], ["x", None]]
+        d["chunks"] = [[G.size_token(r, len(body)), exts, G.b2s(body)]]
+        d["trailers"] = d["trailers"] or [["X-Sum", "9"]]
+        d["parms"] = {n: v for n, v in exts + d["last"][1]}
+    d["raw"] = G.b2s(G.encode(d))
+    raw = d["raw"]
+    n = len(raw)
+    headlen = raw.index(d["body"][:64])
+    first = raw.index("\n") + 1
+    reads64 = list(range(65536, n, 65536))
+    return {"kind": kind, "origin": "big", "huge": True, "msgs": [d], "req_method": "GET", "split_limit": headlen + 40,
+            "one_byte_limit": headlen + 40,
+            "extra_splits": sorted({first, n // 2, 65536, 262144, 262145, headlen + 262144, headlen + 262145, n - 1, n - 7}
+                                   & set(range(1, n))),
+            "rand": [reads64, [first, n // 2], G.random_cuts(r, n, 2), G.random_cuts(r, n, 5), list(range(300000, n, 300000))]}
+
+
 def cases(tier, seed, shard, nshards):
     if shard == 0:
         yield _probe_case()
+    for k in range(len(HUGE)):
+        if (k + 4) % nshards == shard:
+            yield huge_case(k)
     for k in range(32):     # fixed sample of server-driven keep-alive sequences
         if k % nshards == shard:
             yield server_case(random.Random(f"C13:server:{k}"), tier, k)
@@ -367,6 +409,31 @@ def run_server_case(case, ctx):
                     "feeds": 2 * n})
 
 
+def huge_server_role(case, ctx, d, raw, report):
+    """the same huge request through the real Server object (stub connection): whole / start line then rest / halves / 64 KiB reads"""
+    n = len(raw)
+    first = raw.index(b"\n") + 1
+    base = None
+    for name, cuts in (("whole", []), ("start-line-then-rest", [first]), ("halves", [n // 2]), ("64KiB-reads", list(range(65536, n, 65536)))):
+        res = S.drive(G.pieces(raw, cuts), "length", 1)
+        ctx.count("huge_server_role_drives")
+        if res["raised"]:
+            report(f"server:escape:{res['raised'][0]}:{res['raised'][1]}", f"huge request, {name}: Server.service() raised {res['raised']}")
+            continue
+        ed = env_diff(res["calls"][0], d) if res["calls"] else ("request-not-delivered", None, None)
+        if ed or res["markers"] != [0]:
+            shown = (ed[0], (ed[1] or "")[:60], (ed[2] or "")[:60]) if ed else ("responses", res["markers"], [0])
+            report(f"server:truth:{shown[0] if not shown[0].startswith('HTTP_') else 'header'}",
+                   f"huge request ({n} bytes), {name}: app saw {shown[0]}={shown[1]!r}, expected {shown[2]!r}; "
+                   f"calls={len(res['calls'])} responses={res['markers']} closed={res['closed']} unread={len(res['left'])}")
+        cmp_ = (res["calls"], res["markers"], res["closed"], res["left"])
+        if base is None:
+            base = cmp_
+        elif cmp_ != base:
+            report("server:frag:calls", f"huge request ({n} bytes), {name}: differs from the one-read delivery "
+                                        f"(calls {len(res['calls'])} vs {len(base[0])}, responses {res['markers']} vs {base[1]})")
+
+
 def run_case(case, ctx):
     if case["origin"] == "server":
         return run_server_case(case, ctx)
@@ -471,10 +538,17 @@ def run_case(case, ctx):
     ctx.count("cut_between_cr_and_lf", len(crlf))
     limit = case.get("split_limit")     # big messages: two-splits through the head and at listed offsets only
     if limit:
-        ctx.count("big_messages_over_64KiB")
+        ctx.count("huge_messages_over_256KiB" if case.get("huge") else "big_messages_over_64KiB")
+        if case.get("huge") and truth_ok:
+            ctx.count("huge_whole_feeds_matching_truth")
     for c in (range(1, n) if not limit else sorted(set(range(1, min(n, limit))) | set(case["extra_splits"]))):
         try_partition([c], "two_split_partitions")
-    if n > 1:
+    obl = case.get("one_byte_limit")   # huge messages: 1-byte reads through the head, then 64 KiB reads
+    if obl:
+        try_partition(list(range(1, min(n, obl))) + list(range(obl + 65536, n, 65536)), "one_byte_partitions")
+        if kind == "request":
+            huge_server_role(case, ctx, descs[0], raw, report)
+    elif n > 1:
         try_partition(G.all_one_byte(n), "one_byte_partitions")
     if crlf:
         try_partition(crlf, "crlf_cut_partitions")
